@@ -76,6 +76,8 @@ type v09Engine struct {
 	log         []v09Call
 	byName      map[string]int // canonical name -> fake id (1..); -1 = the built-in reject
 	defaultID   int
+	entries     []OutboundEntry
+	long        bool
 }
 
 const v09Reject = -1
@@ -112,16 +114,85 @@ func v09GenEngine(c *v09Ctx, maxRules int) *v09Engine {
 	e.defaultID = e.byName["default"]
 	e.rules = c.genRules(names, true, 0, maxRules)
 	e.file = c.renderFile(e.rules)
-	eng, err := NewACLEngineFromString(e.file, entries, nil)
-	if err != nil {
-		vInconclusive(fmt.Sprintf("C09 harness grammar produced a rule file the engine rejects: %v\noutbounds: %s\n%s", err, e.entriesText, e.file))
-	}
-	e.eng = eng
+	e.entries = entries
 	return e
+}
+
+// build makes an engine from the (possibly post-processed) rule file; called after all draws.
+func (e *v09Engine) build() PluggableOutbound {
+	eng, err := NewACLEngineFromString(e.file, e.entries, nil)
+	if err != nil {
+		vInconclusive(fmt.Sprintf("C09 harness grammar produced a rule file the engine rejects: %v\noutbounds: %s\n%s", err, e.entriesText, v09Abbrev(e.file)))
+	}
+	return eng
+}
+
+// finish appends one witness request per rule (no draws), draws the long-line
+// variant last (so that earlier draws keep their meaning) and builds the engine.
+func (e *v09Engine) finish(c *v09Ctx, qs []v09Query) []v09Query {
+	for i := range e.rules {
+		qs = append(qs, v09Witness(&e.rules[i]))
+	}
+	if c.n(0, 39, "longLine") == 0 {
+		e.file = v09LongLine(e.file, c.n(0, 40, "longAt"), c.n(0, 3, "longHow"))
+		e.long = true
+	}
+	e.eng = e.build()
+	return qs
+}
+
+type v09Seen struct {
+	rejected bool
+	calls    int
+	id       int
+	op       string
+	port     uint16
+	rewrote  bool // the outbound saw another Host than the one requested
+	host     string
+	hasRI    bool
+	v4, v6   string
+}
+
+// send performs one request on eng and reports what the outbounds saw.
+func (e *v09Engine) send(eng PluggableOutbound, q *v09Query) (v09Seen, error) {
+	req := &AddrEx{Host: q.Name, Port: q.Port}
+	if !q.NilInfo {
+		req.ResolveInfo = &ResolveInfo{IPv4: v09NetIP(q.V4, q.V4Long), IPv6: v09NetIP(q.V6, false)}
+	}
+	e.log = e.log[:0]
+	var err error
+	switch q.Op {
+	case 0:
+		_, err = eng.TCP(req)
+	case 1:
+		_, err = eng.UDP(req)
+	default:
+		err = eng.CheckUDP(req)
+	}
+	sn := v09Seen{calls: len(e.log), rejected: len(e.log) == 0 && err != nil}
+	if len(e.log) > 0 {
+		g := e.log[0]
+		sn.id, sn.op, sn.port, sn.hasRI, sn.v4, sn.v6 = g.id, g.op, g.port, g.hasRI, g.v4.String(), g.v6.String()
+		if g.host != q.Name {
+			sn.rewrote, sn.host = true, g.host
+		}
+	}
+	return sn, err
 }
 
 // ask sends one request through the engine and compares with the reference. "" = ok.
 func (e *v09Engine) ask(q *v09Query) (string, int, []int) {
+	if v09HasACE(q.Name) {
+		// Punycode name: any spelling on the used engine == the lower-case spelling on a fresh engine
+		canon := *q
+		canon.Name = v09NormName(q.Name)
+		want, _ := e.send(e.build(), &canon)
+		got, _ := e.send(e.eng, q)
+		if got != want {
+			return fmt.Sprintf("%v was handled as %+v but the same request spelled %q on a fresh engine as %+v: host names must compare case-insensitively, ignoring a trailing dot, independent of history", *q, got, canon.Name, want), -2, nil
+		}
+		return "", -2, nil
+	}
 	req := &AddrEx{Host: q.Name, Port: q.Port}
 	if !q.NilInfo {
 		req.ResolveInfo = &ResolveInfo{IPv4: v09NetIP(q.V4, q.V4Long), IPv6: v09NetIP(q.V6, false)}
@@ -141,7 +212,7 @@ func (e *v09Engine) ask(q *v09Query) (string, int, []int) {
 	wantID, wantHijack, why := e.defaultID, netip.Addr{}, "no rule matches -> default outbound"
 	if first >= 0 {
 		wantID, wantHijack = e.byName[e.rules[first].Ob], e.rules[first].Hijack
-		why = fmt.Sprintf("first matching rule is #%d %q", first, strings.TrimSpace(e.rules[first].Text))
+		why = fmt.Sprintf("first matching rule is #%d %q", first, v09Abbrev(strings.TrimSpace(e.rules[first].Text)))
 	}
 	bad := func(f string, a ...any) (string, int, []int) {
 		return fmt.Sprintf("%s%v: ", op, *q) + fmt.Sprintf(f, a...) + " (" + why + ")", first, all
@@ -224,6 +295,8 @@ func (t *v09Tally) add(s string) {
 
 func (t *v09Tally) note(e *v09Engine, q *v09Query, first int, all []int) {
 	switch {
+	case first == -2:
+		t.add("query:punycode-name(spelling/history invariance)")
 	case first < 0:
 		t.add("decided:default")
 	default:
@@ -257,7 +330,7 @@ func (t *v09Tally) list() []string {
 	var out []string
 	for _, k := range []string{"decided:default", "decided:exact", "decided:suffix", "decided:wildcard", "decided:ip", "decided:cidr",
 		"decided:all", "decided:with-hijack", "decided:by-later-rule", "decided:built-in-reject", "decided:rule-names-default",
-		"query:no-resolve-info", "query:case-or-dot-variant", "repeat:cache-hit", "repeat:hit-under-other-spelling",
+		"query:no-resolve-info", "query:case-or-dot-variant", "query:punycode-name(spelling/history invariance)", "file:line>64KiB", "repeat:cache-hit", "repeat:hit-under-other-spelling",
 		"repeat:after-eviction", "query-matched-by>=2-rules-with-different-results", "default-overridden-by-name", "empty-rule-list"} {
 		if t.seen[k] {
 			out = append(out, k)
@@ -290,6 +363,7 @@ func TestVerifC09_Engine(t *testing.T) {
 		c := &v09Ctx{t: rt, st: st}
 		e := v09GenEngine(c, 12)
 		qs := c.genQueries(e.rules, 5, 60, true)
+		qs = e.finish(c, qs)
 		var tl v09Tally
 		fail := e.run(qs, &tl)
 		sh := v09Analyse(qs, v09EngineCache)
@@ -302,12 +376,15 @@ func TestVerifC09_Engine(t *testing.T) {
 		if e.defaultID != 1 {
 			tl.add("default-overridden-by-name")
 		}
+		if e.long {
+			tl.add("file:line>64KiB")
+		}
 		if len(e.rules) == 0 {
 			tl.add("empty-rule-list")
 		}
 		// no eviction is possible here: non-trivial = a cache hit and a query on which rule order matters
 		nt := sh.repeatHit && tl.seen["query-matched-by>=2-rules-with-different-results"]
-		st.Case(nt, e.entriesText+"\x00"+e.file+"\x00"+v09Keys(qs), tl.list(), func() string { return e.render(qs, len(qs)-1) })
+		st.Case(nt, e.entriesText+"\x00"+v09Abbrev(e.file)+"\x00"+v09Keys(qs), tl.list(), func() string { return e.render(qs, len(qs)-1) })
 		if fail != "" {
 			rt.Fatalf("C09 engine: %s", fail)
 		}
@@ -361,6 +438,7 @@ func TestVerifC09_EngineEvict(t *testing.T) {
 			qs = append(qs, q)
 		}
 		qs = append(qs, probes...)
+		qs = e.finish(c, qs)
 		var tl v09Tally
 		fail := e.run(qs, &tl)
 		sh := v09Analyse(qs, v09EngineCache)
@@ -376,8 +454,11 @@ func TestVerifC09_EngineEvict(t *testing.T) {
 		if e.defaultID != 1 {
 			tl.add("default-overridden-by-name")
 		}
+		if e.long {
+			tl.add("file:line>64KiB")
+		}
 		nt := sh.repeatEvicted && sh.distinct > v09EngineCache && tl.seen["query-matched-by>=2-rules-with-different-results"]
-		st.Case(nt, e.entriesText+"\x00"+e.file+"\x00"+v09Keys(probes)+fmt.Sprintf("%d/%d", start, flood), tl.list(), func() string {
+		st.Case(nt, e.entriesText+"\x00"+v09Abbrev(e.file)+"\x00"+v09Keys(probes)+fmt.Sprintf("%d/%d", start, flood), tl.list(), func() string {
 			return fmt.Sprintf("%d requests, %d distinct; probes: %s", len(qs), sh.distinct, e.render(probes, len(probes)-1))
 		})
 		if sh.distinct > maxDistinct {
